@@ -909,7 +909,34 @@ def make_builtins(I):
             if not e.is_number:
                 raise AnalysisError("sorted over symbolic keys")
             return (0, float(e))
-        order = sorted(range(len(items)), key=lambda i: pk(ks[i]), reverse=bool(reverse))
+        try:
+            order = sorted(range(len(items)), key=lambda i: pk(ks[i]), reverse=bool(reverse))
+        except AnalysisError:
+            # symbolic numeric keys: stable insertion sort decided by the ordering facts the rule supplied
+            def lt(a, b):
+                if isinstance(a, (tuple, list)) and isinstance(b, (tuple, list)):
+                    for x, y in zip(a, b):
+                        if x is y or (_alg(x) and _alg(y) and sp.expand(to_expr(x) - to_expr(y)) == 0):
+                            continue
+                        return lt(x, y)
+                    return len(a) < len(b)
+                if _alg(a) and _alg(b):
+                    return compare(I, ast.Lt(), a, b)
+                raise AnalysisError("sorted over symbolic keys")
+            order = []
+            for i in range(len(items)):
+                pos = len(order)
+                while pos > 0:
+                    r = lt(ks[i], ks[order[pos - 1]])
+                    if r is True:
+                        pos -= 1
+                    elif r is False:
+                        break
+                    else:
+                        raise AnalysisError("sorted over symbolic keys whose order is not known")
+                order.insert(pos, i)
+            if reverse:
+                order = order[::-1]     # (stability under reverse is not modelled for ties; symbolic keys are distinct symbols)
         return [items[i] for i in order]
 
     def b_str(x=""):
